@@ -148,8 +148,10 @@ func (m *Machine) callBody(fn *ssa.Function, args []Value, env []Value, isInit b
 					goto nextBlock
 				} else if m.branch(c) {
 					next = b.Succs[0]
+					m.refine(fr, x.Cond, true)
 				} else {
 					next = b.Succs[1]
+					m.refine(fr, x.Cond, false)
 				}
 			case *ssa.Panic:
 				v := m.get(fr, x.X)
@@ -1104,4 +1106,95 @@ func hasPrefixAny(s string, ps ...string) bool {
 		}
 	}
 	return false
+}
+
+// refine tightens the interval of an SSA operand after a branch on (operand op constant) was
+// taken: the comparison is a fact for the rest of this path (SSA values are immutable).
+func (m *Machine) refine(fr *frame, cond ssa.Value, taken bool) {
+	if bvMode {
+		return
+	}
+	bo, ok := cond.(*ssa.BinOp)
+	if !ok {
+		if u, isU := cond.(*ssa.UnOp); isU && u.Op == token.NOT {
+			m.refine(fr, u.X, !taken)
+		}
+		return
+	}
+	op := bo.Op
+	var v ssa.Value
+	var k *big.Int
+	_, signed, isInt := intInfo(bo.X.Type())
+	if !isInt {
+		return
+	}
+	constOf := func(x ssa.Value) *big.Int {
+		if c, isC := x.(*ssa.Const); isC {
+			if t, isT := m.constVal(c).(*Term); isT && t.C != nil {
+				return t.C
+			}
+			return nil
+		}
+		if t, isT := fr.env[x].(*Term); isT && t.C != nil {
+			return t.C
+		}
+		return nil
+	}
+	if c := constOf(bo.Y); c != nil {
+		v, k = bo.X, c
+	} else if c := constOf(bo.X); c != nil {
+		v, k = bo.Y, c
+		// mirror the operator
+		switch op {
+		case token.LSS:
+			op = token.GTR
+		case token.LEQ:
+			op = token.GEQ
+		case token.GTR:
+			op = token.LSS
+		case token.GEQ:
+			op = token.LEQ
+		}
+	} else {
+		return
+	}
+	_ = signed
+	t, isT := fr.env[v].(*Term)
+	if !isT || t.C != nil || t.K != KInt {
+		return
+	}
+	if !taken {
+		switch op {
+		case token.LSS:
+			op = token.GEQ
+		case token.LEQ:
+			op = token.GTR
+		case token.GTR:
+			op = token.LEQ
+		case token.GEQ:
+			op = token.LSS
+		case token.EQL:
+			op = token.NEQ
+		case token.NEQ:
+			op = token.EQL
+		}
+	}
+	lo, hi := t.Lo, t.Hi
+	switch op {
+	case token.LSS:
+		hi = minNil(hi, new(big.Int).Sub(k, big1))
+	case token.LEQ:
+		hi = minNil(hi, k)
+	case token.GTR:
+		lo = maxNil(lo, new(big.Int).Add(k, big1))
+	case token.GEQ:
+		lo = maxNil(lo, k)
+	case token.EQL:
+		lo, hi = k, k
+	default:
+		return
+	}
+	c := *t
+	c.Lo, c.Hi = lo, hi
+	fr.env[v] = &c
 }
